@@ -848,6 +848,25 @@ def _pairs_loop(r, fn, vec, callee, what):
             r.violation(fn, fn.loc(head.ast), "%s: an entry of the %s can be skipped without calling %s" % (short(fn), what, callee),
                         witness(cfg, parent, (nid, st)))
             break
+    # no early exit from the loop (break / return): every later entry is applied as well
+    def fwd(starts, stop=None):
+        seen, work = set(), list(starts)
+        while work:
+            x = work.pop()
+            if x in seen or x == stop:
+                continue
+            seen.add(x)
+            work.extend(d for (d, l) in cfg.succ[x] if l != "exc")
+        return seen
+    body = fwd([d for (d, l) in cfg.succ[head.id] if l == "iter"], stop=head.id)
+    for b in sorted(body):
+        bn = cfg.nodes[b]
+        if bn.kind in ("raise",) or is_raise(bn):
+            continue
+        if head.id not in fwd([d for (d, l) in cfg.succ[b] if l != "exc"]) and b != head.id:
+            r.violation(fn, fn.loc(bn.ast) if bn.ast is not None else fn.loc(), "%s: the loop over the %s can be left "
+                        "early, skipping the remaining entries" % (short(fn), what))
+            break
     if fv is None:
         raise AnchorVanished("%s: file argument of %s not found" % (short(fn), callee))
     return fv
